@@ -409,9 +409,18 @@ def D04(p):
             al = [k for k, x in enumerate(ln.lex) if "align" in x.tags]
             if not al:
                 continue
-            form = ""
-            if ln.kind == "typedef":     # by declarator form: plain / pointer / function pointer / array
-                form = ":fptr" if any(x.t == "(" for x in ln.lex) else ":array" if any(x.t == "[" for x in ln.lex) else ":ptr" if any("ptr-decl" in x.tags for x in ln.lex) else ":plain"
+            # by declarator form: plain / pointer / function pointer / array (with a number or with an identifier as size)
+            nm = [k for k, x in enumerate(ln.lex) if "decl-name" in x.tags]
+            k0 = nm[0] if nm else 0
+            if k0 and ln.lex[k0 - 1].t == "*" and k0 >= 2 and ln.lex[k0 - 2].t == "(":
+                form = ":fptr"
+            elif k0 + 1 < len(ln.lex) and ln.lex[k0 + 1].t == "[":
+                close = next((j for j in range(k0 + 1, len(ln.lex)) if ln.lex[j].t == "]"), len(ln.lex))
+                form = ":array-identifier-size" if any(x.k == "id" for x in ln.lex[k0 + 2:close]) else ":array"
+            elif k0 and "ptr-decl" in ln.lex[k0 - 1].tags:
+                form = ":ptr"
+            else:
+                form = ":plain"
 
             def ap(q, i=i, k=al[0]):
                 q.lines[i].lex.insert(k, Lx("\t", "tab"))
@@ -1593,6 +1602,8 @@ def T12(p):
                         return i
                     form = "close" if ln.kind == "utype_close" else "fptr" if any(y.t == "(" for y in ln.lex) else "array" if any(y.t == "[" for y in ln.lex) else \
                         "ptr" if any("ptr-decl" in y.tags for y in ln.lex) else "plain"
+                    if form == "fptr" and any(y.k in ("id", "type") and j > k for j, y in enumerate(ln.lex)):
+                        form = "fptr:identifier-in-parameter-types"     # the name check looks at the last identifier of the statement
                     yield ln.kind + ":" + form, ap
 
 
